@@ -19,7 +19,7 @@ LEVEL = "exploration"
 RULE = ("abstract acyclic workflows by construction: <=7 components over <=3 stages, names from a confusable-name "
         "strategy (prefix/suffix/substring/extension of each other, trailing digits, dots, dashes), references in "
         "relative or absolute spelling with optional file paths and methods ref/copy/link/output/copyout/extract, one "
-        "replica count N in 2..3 requested literally or through a global/stage/component variable, aggregating "
+        "replica count N in {2,3,11,12} requested literally or through a global/stage/component variable, aggregating "
         "consumers. Non-trivial = >=1 replicated region with >=1 consumer and (an aggregator or a pair of names where one "
         "contains the other); distinct = distinct abstract workflows.")
 ASSUMPTIONS = [
@@ -34,7 +34,7 @@ TIERS = {"quick": {"shards": 8, "budget": 120}, "thorough": {"shards": 16, "budg
 def cases():
     return wfgen.workflows(max_components=7, max_stages=3, names="confusable", methods=tuple(wfgen.METHODS_GRAPH),
                            allow_paths=True, allow_repeat=False, allow_shutdown=False, replicate_via_vars=True,
-                           max_n=3, allow_multi_ref=True)
+                           max_n=12, allow_multi_ref=True)
 
 
 _STAGE_PREFIX = re.compile(r"^stage\d+\.")
